@@ -156,7 +156,15 @@ func (b *circuitBreakerBase) retryTimeoutArrived() bool {
 }
 
 func (b *circuitBreakerBase) updateNextRetryTimestamp() {
-	atomic.StoreUint64(&b.nextRetryTimestampMs, util.CurrentTimeMillis()+uint64(b.retryTimeoutMs))
+	next := util.CurrentTimeMillis() + uint64(b.retryTimeoutMs)
+	// The deadline only ever moves forward, so a delayed caller can never
+	// replace a newer deadline with an older one.
+	for {
+		cur := atomic.LoadUint64(&b.nextRetryTimestampMs)
+		if next <= cur || atomic.CompareAndSwapUint64(&b.nextRetryTimestampMs, cur, next) {
+			return
+		}
+	}
 }
 
 func (b *circuitBreakerBase) addCurProbeNum() {
@@ -170,6 +178,9 @@ func (b *circuitBreakerBase) resetCurProbeNum() {
 // fromClosedToOpen updates circuit breaker state machine from closed to open.
 // Return true only if current goroutine successfully accomplished the transformation.
 func (b *circuitBreakerBase) fromClosedToOpen(snapshot interface{}) bool {
+	// Publish the retry deadline before the state becomes Open: otherwise a concurrent
+	// TryPass can observe Open together with a stale deadline and probe immediately.
+	b.updateNextRetryTimestamp()
 	if b.state.cas(Closed, Open) {
 		b.updateNextRetryTimestamp()
 		for _, listener := range stateChangeListeners {
@@ -216,6 +227,8 @@ func (b *circuitBreakerBase) fromOpenToHalfOpen(ctx *base.EntryContext) bool {
 // fromHalfOpenToOpen updates circuit breaker state machine from half-open to open.
 // Return true only if current goroutine successfully accomplished the transformation.
 func (b *circuitBreakerBase) fromHalfOpenToOpen(snapshot interface{}) bool {
+	// See fromClosedToOpen: the deadline must be in place before Open is visible.
+	b.updateNextRetryTimestamp()
 	if b.state.cas(HalfOpen, Open) {
 		b.resetCurProbeNum()
 		b.updateNextRetryTimestamp()
